@@ -56,7 +56,8 @@ def gen_cases(tier, seed):
         c["mix"] = "xmix"
         c["model"] = "xc1"
         if c["df"]:
-            c["df_order"] = ["after", "before"][i % 2]
+            ndf = sum(1 for x in cases if x["cfg"].get("df"))
+            c["df_order"] = ["after", "before"][ndf % 2]
         if c["family"].startswith("v"):
             c["plan_type"] = str(rng.choice(["gaussian", "spline"]))
             c["interp"] = str(rng.choice(["onsite_direct", "onsite_spline"]))
